@@ -54,28 +54,28 @@ Lemma nobody_holds (c : ConcQueue.conf nat) :
 Proof. intros H _. exact H. Qed.
 
 Example concqueue_example :
-  exists c, ConcQueue.reach nat true true (ConcQueue.init nat 2 cq_prog) c /\
+  exists c, ConcQueue.reach nat true true true (ConcQueue.init nat 2 cq_prog) c /\
             ConcQueue.outs nat c 1 = [ConcQueue.RGet nat [10]] /\ ConcQueue.added nat c = [10; 11].
 Proof.
-  pose proof (ConcQueue.r_refl nat true true (ConcQueue.init nat 2 cq_prog)) as R.
+  pose proof (ConcQueue.r_refl nat true true true (ConcQueue.init nat 2 cq_prog)) as R.
   Ltac cnrm R := cbv beta iota delta [ConcQueue.th ConcQueue.shq ConcQueue.outs ConcQueue.hist ConcQueue.absq ConcQueue.added] in R.
-  Ltac cstep R t := let R' := fresh "Rn" in match type of R with ConcQueue.reach _ _ _ _ ?c =>
-    pose proof (ConcQueue.r_step nat true true _ c _ R ltac:(t c)) as R' end; clear R; rename R' into R; cnrm R.
+  Ltac cstep R t := let R' := fresh "Rn" in match type of R with ConcQueue.reach _ _ _ _ _ ?c =>
+    pose proof (ConcQueue.r_step nat true true true _ c _ R ltac:(t c)) as R' end; clear R; rename R' into R; cnrm R.
   (* no thread holds a lock: decided by computation on the three live threads, the rest are idle *)
   Ltac free := intros _ j; destruct j as [|[|j]]; split; reflexivity.
-  cstep R ltac:(fun c => exact (ConcQueue.s_call_add nat true true c 0 _ _ eq_refl)).
-  cstep R ltac:(fun c => refine (ConcQueue.s_lock nat true true c 0 _ _ eq_refl _); free).
-  cstep R ltac:(fun c => exact (ConcQueue.s_evict nat true true c 0 _ _ eq_refl)).
-  cstep R ltac:(fun c => exact (ConcQueue.s_insert nat true true c 0 _ _ eq_refl)).
-  cstep R ltac:(fun c => exact (ConcQueue.s_unlock nat true true c 0 _ eq_refl)).
-  cstep R ltac:(fun c => exact (ConcQueue.s_call_get nat true true c 1 _ eq_refl)).
-  cstep R ltac:(fun c => refine (ConcQueue.s_rlock nat true true c 1 _ eq_refl _); intros _ j; destruct j as [|[|j]]; reflexivity).
-  cstep R ltac:(fun c => exact (ConcQueue.s_keys nat true true c 1 _ eq_refl)).
-  cstep R ltac:(fun c => exact (ConcQueue.s_collect nat true true c 1 _ _ eq_refl)).
-  cstep R ltac:(fun c => exact (ConcQueue.s_runlock nat true true c 1 _ _ eq_refl)).
-  cstep R ltac:(fun c => exact (ConcQueue.s_call_add nat true true c 0 _ _ eq_refl)).
-  cstep R ltac:(fun c => refine (ConcQueue.s_lock nat true true c 0 _ _ eq_refl _); free).
-  cstep R ltac:(fun c => exact (ConcQueue.s_evict nat true true c 0 _ _ eq_refl)).
-  cstep R ltac:(fun c => exact (ConcQueue.s_insert nat true true c 0 _ _ eq_refl)).
+  cstep R ltac:(fun c => exact (ConcQueue.s_call_add nat true true true c 0 _ _ eq_refl)).
+  cstep R ltac:(fun c => refine (ConcQueue.s_lock nat true true true c 0 _ _ eq_refl _); free).
+  cstep R ltac:(fun c => exact (ConcQueue.s_evict nat true true true c 0 _ _ eq_refl)).
+  cstep R ltac:(fun c => exact (ConcQueue.s_insert nat true true true c 0 _ _ eq_refl)).
+  cstep R ltac:(fun c => exact (ConcQueue.s_unlock nat true true true c 0 _ eq_refl)).
+  cstep R ltac:(fun c => exact (ConcQueue.s_call_get nat true true true c 1 _ eq_refl)).
+  cstep R ltac:(fun c => refine (ConcQueue.s_rlock nat true true true c 1 _ eq_refl _ _); [intros _ j; destruct j as [|[|j]]; reflexivity|intros _ _ j x r'; destruct j as [|[|j]]; discriminate]).
+  cstep R ltac:(fun c => exact (ConcQueue.s_keys nat true true true c 1 _ eq_refl)).
+  cstep R ltac:(fun c => exact (ConcQueue.s_collect nat true true true c 1 _ _ eq_refl)).
+  cstep R ltac:(fun c => exact (ConcQueue.s_runlock nat true true true c 1 _ _ eq_refl)).
+  cstep R ltac:(fun c => exact (ConcQueue.s_call_add nat true true true c 0 _ _ eq_refl)).
+  cstep R ltac:(fun c => refine (ConcQueue.s_lock nat true true true c 0 _ _ eq_refl _); free).
+  cstep R ltac:(fun c => exact (ConcQueue.s_evict nat true true true c 0 _ _ eq_refl)).
+  cstep R ltac:(fun c => exact (ConcQueue.s_insert nat true true true c 0 _ _ eq_refl)).
   eexists. split; [exact R|]. split; vm_compute; reflexivity.
 Qed.
